@@ -122,8 +122,8 @@ func init() {
 		"strings.Contains": func(c *Ctx, a []Value) Value {
 			return len(c.split(strArg(a[0]), strArg(a[1]))) > 1
 		},
-		"strings.ToLower": func(c *Ctx, a []Value) Value { return Conc(strings.ToLower(strArg(a[0]).MustGo())) },
-		"strings.ToUpper": func(c *Ctx, a []Value) Value { return Conc(strings.ToUpper(strArg(a[0]).MustGo())) },
+		"strings.ToLower": func(c *Ctx, a []Value) Value { return caseMap(c, strArg(a[0]), false) },
+		"strings.ToUpper": func(c *Ctx, a []Value) Value { return caseMap(c, strArg(a[0]), true) },
 		"strings.Repeat": func(c *Ctx, a []Value) Value {
 			n := c.concInt(a[1], "strings.Repeat")
 			var parts []Str
@@ -176,7 +176,7 @@ func init() {
 		"os.WriteFile":  intrWriteFile,
 		"os.Executable": func(c *Ctx, a []Value) Value { return Tuple{Conc(c.FS.Exe), Iface{}} },
 		"os.Exit": func(c *Ctx, a []Value) Value {
-			panic(&GoPanic{Msg: fmt.Sprintf("os.Exit(%v)", a[0]), Val: Iface{T: types.Typ[types.Int], V: a[0]}})
+			panic(&GoPanic{Msg: fmt.Sprintf("os.Exit(%v)", a[0]), Val: Iface{T: types.Typ[types.Int], V: a[0]}, Exit: true})
 		},
 
 		"path/filepath.IsAbs": func(c *Ctx, a []Value) Value { return filepath.IsAbs(c.pathArg(a[0])) },
@@ -1081,6 +1081,44 @@ func (c *Ctx) Simplify(s Str) Str {
 	}
 	if !changed {
 		return s
+	}
+	return normalize(segs)
+}
+
+// caseMap is strings.ToLower / strings.ToUpper on a rope; symbolic bytes are assumed ASCII and mapped by a term.
+func caseMap(c *Ctx, s Str, upper bool) Str {
+	if g, ok := s.Go(); ok {
+		if upper {
+			return Conc(strings.ToUpper(g))
+		}
+		return Conc(strings.ToLower(g))
+	}
+	B := c.B
+	var segs []Seg
+	for _, u := range s.Units() {
+		switch {
+		case u.D != nil:
+			segs = append(segs, u) // decimal digits and a sign have no case
+		case u.B != nil:
+			if !asciiOnly(u.B) {
+				c.Assume(B.Cmp(sym.OpULt, u.B, B.BV(0x80, 8)))
+			}
+			lo, hi, delta := byte('A'), byte('Z'), uint64(32)
+			if upper {
+				lo, hi, delta = 'a', 'z', uint64(256-32)
+			}
+			in := B.And(B.Cmp(sym.OpULe, B.BV(uint64(lo), 8), u.B), B.Cmp(sym.OpULe, u.B, B.BV(uint64(hi), 8)))
+			segs = append(segs, Seg{B: B.Ite(in, B.Bin(sym.OpAdd, u.B, B.BV(delta, 8)), u.B)})
+		default:
+			if u.S[0] >= 0x80 {
+				c.Unsupported("case mapping of a mixed symbolic/non-ASCII string")
+			}
+			if upper {
+				segs = append(segs, Seg{S: strings.ToUpper(u.S)})
+			} else {
+				segs = append(segs, Seg{S: strings.ToLower(u.S)})
+			}
+		}
 	}
 	return normalize(segs)
 }
